@@ -125,6 +125,8 @@ pub fn menu(s: &Structure) -> Vec<Op> {
     if !refundable_staker.is_empty() {
         v.push(rec(P::Admin, None, Some(refundable_staker.clone()), None, vec![]));
         v.push(rec(P::Admin, None, Some(vec![refundable_staker[0]]), Some("staker"), vec![]));
+        // admin-forced selection naming the same transfer twice
+        v.push(rec(P::Admin, None, Some(vec![refundable_staker[0], refundable_staker[0]]), None, vec![]));
     }
     v.push(rec(P::Admin, None, Some(vec![4242]), None, vec![]));
     v.push(Op::FeeWithdraw { sender: P::Admin });
@@ -241,6 +243,11 @@ pub fn cases(suite: &str, tier: &str, seed: u64, props: &BTreeSet<String>) -> Ve
                         }
                     }
                 }
+            }
+        }
+        "hist" => {
+            for cfg in cfgs(tier, seed) {
+                out.extend(crate::hist::histories(&cfg, tier));
             }
         }
         other => panic!("SYMX: unknown suite {other}"),
